@@ -85,7 +85,7 @@ func init() {
 			}
 			return r
 		},
-		Bounds: []string{"file name: 1..4 (thorough 5) '_'-separated words of <= 11 bytes over [a-z0-9], optional .word / .word_word segment (with 4 words: thorough only), .go", "+build line: 1 option x 1 tag (thorough 2x2) with !/!!, generic/go1.N/go1.junk/malformed words <= 8 bytes", "constraint header: optional //go:build line (10 expression shapes, <= 3 tags) + 0..1 (thorough 2) +build lines; +build-only headers of 1..2 (thorough 3) lines", "GOOS, GOARCH: any value of go/build's known lists", "release go1.1..go1.40", "one custom build tag <= 8 bytes"},
+		Bounds:      []string{"file name: 1..4 (thorough 5) '_'-separated words of <= 11 bytes over [a-z0-9], optional .word / .word_word segment (with 4 words: thorough only), .go", "+build line: 1 option x 1 tag (thorough 2x2) with !/!!, generic/go1.N/go1.junk/malformed words <= 8 bytes", "constraint header: optional //go:build line (10 expression shapes, <= 3 tags) + 0..1 (thorough 2) +build lines; +build-only headers of 1..2 (thorough 3) lines", "GOOS, GOARCH: any value of go/build's known lists", "release go1.1..go1.40", "one custom build tag <= 8 bytes"},
 		Assumptions: []string{"symbolic strings are ASCII", "Context.Compiler, CgoEnabled, ToolTags empty (compiler/cgo tags outside the claim)", "file names contain no '/'"},
 	}
 }
